@@ -454,6 +454,90 @@ func c11Run(b core.Batch, r *core.Recorder) {
 			r.Count("handshakes_verified", 2)
 			r.Nontrivial("wire", t.target)
 		}
+		// overlapping tunnels to different hosts: each tunnel must be served the certificate of ITS target, also
+		// when other tunnels are set up between its CONNECT and its handshake, and when many handshake at once
+		nov := b.Int("overlaps", 12)
+		for i := 0; i < nov; i++ {
+			id := fmt.Sprintf("o%d", i)
+			k := 2 + i%4
+			if !r.Case(id, map[string]any{"overlapping_tunnels": k}) {
+				continue
+			}
+			r.Eval(1)
+			cs := map[string]any{"id": id, "overlapping_tunnels": k, "staged": i%2 == 0}
+			names := make([]string, k)
+			targs := make([]string, k)
+			for j := range names {
+				switch (i + j) % 3 {
+				case 0:
+					names[j] = fmt.Sprintf("ov%d-%d.overlap.test", i, j)
+					targs[j] = names[j] + ":443"
+				case 1:
+					names[j] = fmt.Sprintf("10.77.%d.%d", i, j+1)
+					targs[j] = names[j] + ":443"
+				default:
+					names[j] = fmt.Sprintf("2001:db8:77::%x:%x", i+1, j+1)
+					targs[j] = "[" + names[j] + "]:443"
+				}
+			}
+			pend := make([]*rig.PendingTunnel, k)
+			okc := true
+			for j := range pend {
+				pt, err := rig.ConnectOnly(p.Addr, targs[j])
+				if err != nil {
+					okc = false
+					break
+				}
+				pend[j] = pt
+			}
+			if !okc {
+				for _, pt := range pend {
+					if pt != nil {
+						pt.Close()
+					}
+				}
+				r.NotJudged("overlap-connect-refused")
+				continue
+			}
+			errs := make([]error, k)
+			if i%2 == 0 {
+				// staged: all CONNECTs answered first, then the handshakes in reverse order
+				for j := k - 1; j >= 0; j-- {
+					t, err := pend[j].Handshake(names[j], p.CA.Pool)
+					errs[j] = err
+					if t != nil {
+						t.Close()
+					}
+				}
+			} else {
+				var wg sync.WaitGroup
+				for j := range pend {
+					wg.Add(1)
+					go func() {
+						defer wg.Done()
+						t, err := pend[j].Handshake(names[j], p.CA.Pool)
+						errs[j] = err
+						if t != nil {
+							t.Close()
+						}
+					}()
+				}
+				wg.Wait()
+			}
+			r.Count("overlapping_tunnel_groups", 1)
+			r.Nontrivial("overlap", i, k)
+			for j, err := range errs {
+				if err != nil {
+					cls := "handshake-failed"
+					if strings.Contains(err.Error(), "certificate") {
+						cls = "certificate-of-another-tunnel-or-invalid"
+					}
+					r.Violation("C11", "C11:wire:overlap:"+cls, fmt.Sprintf("%d tunnels set up at once; the tunnel to %s failed verification for %q: %v", k, targs[j], names[j], err), cs, nil)
+					break
+				}
+				r.Count("handshakes_verified", 1)
+			}
+		}
 		r.Sample(map[string]any{"part": "wire", "targets": len(targets), "what": "CONNECT + TLS handshake with RootCAs = CA pool and ServerName = host; twice per target"})
 	}
 }
@@ -468,7 +552,7 @@ func c11Plan(tier string, seed int64) []core.Batch {
 		{Name: "expiry", Race: true, TimeoutS: 1800, Args: map[string]any{"part": "expiry"}},
 		{Name: "burst", Race: true, TimeoutS: 1800, Args: map[string]any{"part": "burst", "rounds": rounds}},
 		{Name: "cakinds", TimeoutS: 1800, Args: map[string]any{"part": "cakinds"}},
-		{Name: "wire", TimeoutS: 1800, Args: map[string]any{"part": "wire", "n": w}},
+		{Name: "wire", TimeoutS: 1800, Args: map[string]any{"part": "wire", "n": w, "overlaps": w/2 + 2}},
 	}
 }
 
@@ -477,12 +561,12 @@ func init() {
 		ID:    "C11",
 		Level: "exploration",
 		Rule: "API level: 55 fixed host:port forms (case mixes, trailing dot, underscore, punycode, 63-char labels, wildcard, spaces, IPv4 edge values, bracketed IPv6 incl. zone / v4-mapped / malformed, ports 0..65535 and malformed) plus seeded random DNS / IPv4 / IPv6 targets through the real GetCertForHost; every returned leaf: x509.Verify against the CA pool for exactly that host now, exactly one SAN, validity window, private key signs a nonce the leaf key verifies, second call returns the same pointer; " +
-			"expiry: harness-signed leaves with NotAfter = now - {1 s, 1 min, 1 h, 1 d, 10 y} placed in the cache, then 1 or 16 concurrent requests; bursts of 2..64 concurrent first requests for one new host or for as many distinct new hosts, alternately on a CA instance that has issued nothing yet and on a used one (race build), followed by a request for a further new host; CA key types p256/p384/p521/rsa2048/rsa3072/ed25519 (leaf checks + handshakes through a proxy configured with that CA); wire: CONNECT + TLS handshakes verified by Go's TLS client, twice per target. Non-trivial = distinct accepted target / expiry case / burst / handshake target.",
+			"expiry: harness-signed leaves with NotAfter = now - {1 s, 1 min, 1 h, 1 d, 10 y} placed in the cache, then 1 or 16 concurrent requests; bursts of 2..64 concurrent first requests for one new host or for as many distinct new hosts, alternately on a CA instance that has issued nothing yet and on a used one (race build), followed by a request for a further new host; CA key types p256/p384/p521/rsa2048/rsa3072/ed25519 (leaf checks + handshakes through a proxy configured with that CA); wire: CONNECT + TLS handshakes verified by Go's TLS client, twice per target; groups of 2-5 tunnels to different hosts whose CONNECTs are all answered before any handshake starts (handshakes then in reverse order, or all at once). Non-trivial = distinct accepted target / expiry case / burst / handshake target.",
 		Assumptions: []string{"targets the CA refuses are counted, not judged", "x509.Verify and crypto/tls of the Go standard library are the independent oracle"},
 		Plan:        c11Plan,
 		Run:         c11Run,
 		Parallel:    4,
-		Floors: map[string]map[string]int64{"quick": {"accepted_dns": 50, "accepted_ipv4": 50, "accepted_ipv6": 50, "expiry_cases": 40, "burst_cases": 90, "burst_cases_on_a_ca_that_had_issued_nothing": 40, "ca_kinds": 6, "handshakes_verified": 40},
-			"thorough": {"accepted_dns": 5000, "accepted_ipv4": 5000, "accepted_ipv6": 5000, "expiry_cases": 40, "burst_cases": 900, "burst_cases_on_a_ca_that_had_issued_nothing": 400, "ca_kinds": 6, "handshakes_verified": 1500}},
+		Floors: map[string]map[string]int64{"quick": {"accepted_dns": 50, "accepted_ipv4": 50, "accepted_ipv6": 50, "expiry_cases": 40, "burst_cases": 90, "burst_cases_on_a_ca_that_had_issued_nothing": 40, "ca_kinds": 6, "handshakes_verified": 40, "overlapping_tunnel_groups": 10},
+			"thorough": {"accepted_dns": 5000, "accepted_ipv4": 5000, "accepted_ipv6": 5000, "expiry_cases": 40, "burst_cases": 900, "burst_cases_on_a_ca_that_had_issued_nothing": 400, "ca_kinds": 6, "handshakes_verified": 1500, "overlapping_tunnel_groups": 400}},
 	})
 }
